@@ -24,3 +24,18 @@ class Prop:
 
     def execute(self, sim, profile: str) -> None:  # pragma: no cover
         raise NotImplementedError
+
+
+def sweep_expand(prop, seed, profile, run, sample, max_k=255):
+    """Fault-position sweep: run the fault-free twin (choice 0 forced to 0), then re-run it once per
+    loop iteration k with the fault injected at iteration k (choices of the twin replayed as the
+    prefix; after the runs diverge the remaining choices continue from a PRNG derived from (seed, k))."""
+    from .source import Source, derive_seed
+    twin = run(Source(seed, prefix=[0]), sample)
+    if twin["violation"] or twin["harness"]:
+        return twin
+    n = min(twin["boundaries"], max_k)
+    base = twin["trace"]
+    for k in range(1, n + 1):
+        run(Source(derive_seed(seed, k), prefix=[k] + base[1:]))
+    return twin
